@@ -364,7 +364,11 @@ def sweep_batch(rep, scr, impl, consts, pid, var, tier, seed, md=None):
     rng = random.Random(seed * 13 + 5)
     groups = [('C', sweep.ext_cases(seed, tier, consts, pid))] if pid != 'C07' else []
     if pid in ('C01', 'C02', 'C04', 'C07'): groups.append(('C', sweep.overlap_cases(seed, tier, consts)))
-    if pid in ('C01', 'C03', 'C04', 'C05', 'C08'): groups.append(('C', sweep.fmt_cases(seed, tier, consts)))
+    if pid in ('C01', 'C03', 'C04', 'C05', 'C08'):
+        fc = sweep.fmt_cases(seed, tier, consts)
+        groups.append(('C', fc))
+        if pid in ('C01', 'C03', 'C04'): groups.append(('C', sweep.allocfail_variants(fc[::3])))
+        groups.append(('C.UTF-8', sweep.wfmt_cases(seed, tier, consts)))
     if pid in ('C01', 'C03', 'C04', 'C05', 'C06', 'C08'):
         for loc, locname in (('u8', 'C.UTF-8'), ('c', 'C')):
             cc = []
